@@ -147,7 +147,7 @@ impl Scenario for C11Tcp {
         let build_err: Arc<Mutex<Option<String>>> = Arc::new(Mutex::new(None));
         let p = plan.clone();
         let (e2, c2, d2, b2, net2) = (emits.clone(), clients.clone(), describes.clone(), build_err.clone(), net.clone());
-        let sim = simulate(sched, 400_000, move || {
+        let sim = simulate(sched, 1_500_000, move || {
             let addr: SocketAddr = "127.0.0.1:5000".parse().unwrap();
             let rec = match TcpBuilder::new().listen_address(addr).buffer_size(p.buffer).build() {
                 Ok(r) => Arc::new(r),
@@ -303,6 +303,11 @@ impl Scenario for C11Tcp {
             v = violation("build-failed", format!("buffer_size({:?}): {}", plan.buffer, e));
         } else if !simr.panics.is_empty() {
             v = violation("transport-panic", format!("buffer_size({:?}): {:?}", plan.buffer, simr.panics));
+        } else if simr.end == dsim::End::StepBudget {
+            // every harness thread in this scenario is finite and sleeps on virtual time between
+            // steps; a run can only exhaust 1.5M scheduling points if the transport thread never
+            // goes back to waiting in poll (ordinary runs take a few hundred to a few thousand)
+            v = violation("transport-busy-loop", format!("the transport thread kept running for {} scheduling points without ever blocking in poll again: other clients, the listener and the metric channel are starved (buffer_size {:?})", simr.steps, plan.buffer));
         } else if simr.end == dsim::End::Completed {
             v = check(plan, &emits, &clients, &describes, &st.streams.iter().map(|(k, s)| (*k, (s.to_peer.clone(), s.ended_by_fault || s.peer_closed || s.reset))).collect(), &faults);
         }
